@@ -240,6 +240,33 @@ static void scalar(mon::Rng& rng)
       }
     }
   }
+  // ---- multi-dimensional arrays T[2][3]: whole-array store/load, row and element access
+  if constexpr (!std::is_enum_v<T>) {
+    constexpr size_t A = 2, B = 3, NN = A * B;
+    for (uint64_t off : offsets<T>(rng, gs * NN)) {
+      auto pm = Wd::tptr<T[A][B]>(*SB, off);
+      for (int round = 0; round < mon::tier(2, 20); round++) {
+        T v[NN];
+        unsigned char img[16 * NN];
+        for (size_t i = 0; i < NN; i++) { v[i] = vs[rng.below(vs.size())]; encode<T>(img + i * gs, v[i]); }
+        std::string what = mon::fmt("%s[2][3] {%s,%s,%s,%s,%s,%s}", tn, vstr(v[0]).c_str(), vstr(v[1]).c_str(), vstr(v[2]).c_str(), vstr(v[3]).c_str(), vstr(v[4]).c_str(), vstr(v[5]).c_str());
+        R.randomize(rng, int64_t(off) - 64, int64_t(off + gs * NN) + 64);
+        tainted<T[A][B], S> tm;
+        for (size_t i = 0; i < A; i++) for (size_t j = 0; j < B; j++) tm[i][j] = v[i * B + j];
+        store_case("store-whole-2d-array", tn, off, img, gs * NN, [&] { *pm = tm; }, what);
+        size_t i0 = rng.below(A), j0 = rng.below(B), k = i0 * B + j0;
+        R.randomize(rng, off, off + gs * NN);
+        store_case("store-2d-array-element", tn, off + k * gs, img + k * gs, gs, [&] { (*pm)[i0][j0] = v[k]; }, what);
+        R.randomize(rng, int64_t(off) - 64, int64_t(off + gs * NN) + 64);
+        std::memcpy(R.mem() + off, img, gs * NN);
+        for (size_t i = 0; i < A; i++) for (size_t j = 0; j < B; j++) {
+          load_case<T>("load-whole-2d-array", off, gs * NN, v[i * B + j], [&] { tainted<T[A][B], S> t = *pm; return t[i][j].UNSAFE_unverified(); });
+          load_case<T>("load-2d-array-element", off + (i * B + j) * gs, gs, v[i * B + j], [&] { tainted<T, S> t = (*pm)[i][j]; return t.UNSAFE_unverified(); });
+          load_case<T>("load-2d-array-row", off + i * B * gs, gs * B, v[i * B + j], [&] { tainted<T[B], S> t = (*pm)[i]; return t[j].UNSAFE_unverified(); });
+        }
+      }
+    }
+  }
   static int ns = 0;
   if (ns++ < 5) mon::sample(mon::fmt("{\"abi\":\"%s\",\"type\":\"%s\",\"host_bytes\":%zu,\"guest_bytes\":%zu}", Cfg::name, tn, sizeof(T), gs));
 }
